@@ -155,7 +155,9 @@ func getFloatToStringFunction() schema.CallableFunction {
 	funcSchema, err := schema.NewCallableFunction(
 		"floatToString",
 		[]schema.Type{schema.NewFloatSchema(nil, nil, nil)},
-		schema.NewStringSchema(nil, nil, regexp.MustCompile(`^\d+\.\d*$`)),
+		// What strconv.FormatFloat(a, 'f', -1, 64) produces: whole numbers have no decimal point,
+		// negative numbers a sign, and NaN and the infinities are spelled out.
+		schema.NewStringSchema(nil, nil, regexp.MustCompile(`^(-?\d+(\.\d+)?|NaN|[+-]Inf)$`)),
 		false,
 		schema.NewDisplayValue(
 			schema.PointerTo("floatToString"),
